@@ -5,11 +5,12 @@ INTERFACE lemmas (used by Proofs/Sb2Image.lean and Properties/C04.lean) are mark
 keep their names and statements.
 -/
 import SpsdkVerif.Proofs.Sb2Cmd
+import SpsdkVerif.Crypto.Break
 
 namespace SpsdkVerif.Sb2
 open SpsdkVerif SpsdkVerif.Sb2.Rom
 open SpsdkVerif.Misc (Bytes beEnc beDec leEnc leDec)
-open SpsdkVerif.Crypto (CryptoOps CryptoLaws xorBytes zeroPad16 zeros hmac)
+open SpsdkVerif.Crypto (CryptoOps CryptoLaws xorBytes zeroPad16 zeros hmac Break)
 open SpsdkVerif.Generated
 
 variable {c : CryptoOps}
@@ -290,5 +291,226 @@ theorem readSections_buildSections (h : CryptoLaws c) (dek mac nonce post : Byte
       rw [← List.append_assoc]
       rw [hih]
       simp
+
+/-! ## reductions: a modified section is refused unless HMAC is broken -/
+
+/-- the four pieces of a built section: encrypted header, its MAC, the MAC table over the ciphertext, the ciphertext -/
+theorem buildSection_parts (h : CryptoLaws c) (dek mac nonce : Bytes) (ctr : Nat) (s : Section) (wf : Spec.WFsection s) :
+    ∃ eh ec : Bytes,
+      buildSection c dek mac nonce ctr s
+        = eh ++ hmac c .sha256 mac eh ++
+            hmacEntries c mac (Spec.macCount s) (Spec.cmdsLen s.cmds / 16 / Spec.macCount s * 16) ec ++ ec ∧
+      eh.length = 16 ∧ ec.length = Spec.cmdsLen s.cmds ∧
+      xorBytes eh (ksBlock c dek nonce ctr)
+        = encodeHdr ⟨Sb2Consts.tagTag, imageSectionFlags, s.uid, Spec.cmdsLen s.cmds / 16, Spec.macCount s⟩ := by
+  have ⟨e1, _, _⟩ := effHmacCount_eq s wf
+  have ⟨l1, l2⟩ := cmdsData_length s.cmds
+  refine ⟨xorBytes (encodeHdr ⟨Sb2Consts.tagTag, imageSectionFlags, s.uid, Spec.cmdsLen s.cmds / 16, Spec.macCount s⟩)
+      (ksBlock c dek nonce ctr),
+    ctrBlocks c dek nonce (Spec.cmdsLen s.cmds / 16) (ctr + (1 + (Spec.macCount s + 1) * 2)) (cmdsData s.cmds), ?_, ?_, ?_, ?_⟩
+  · unfold buildSection buildSectionWith
+    simp only [e1, l1]
+    rfl
+  · simp [encodeHdr_length, ksBlock_length h]
+  · rw [ctrBlocks_length h _ _ _ _ _ (by omega)]; omega
+  · exact Crypto.xorBytes_cancel _ _ (by simp [encodeHdr_length, ksBlock_length h])
+
+/-- ROM side: a header MAC that is not the MAC of the 16 header bytes is refused -/
+theorem readSection_hdrMac_bad (dek mac nonce pre eh hm rest : Bytes) (leh : eh.length = 16) (lhm : hm.length = 32)
+    (hne : hm ≠ hmac c .sha256 mac eh) :
+    Rom.readSection c dek mac nonce (pre ++ eh ++ hm ++ rest) pre.length = .error .badSectionMac := by
+  have F1 : (pre ++ eh ++ hm ++ rest).length = pre.length + 48 + rest.length := by
+    simp only [List.length_append, leh, lhm]
+  have F2 : Rom.slice (pre ++ eh ++ hm ++ rest) pre.length 16 = eh := by
+    have : pre ++ eh ++ hm ++ rest = pre ++ eh ++ (hm ++ rest) := by simp [List.append_assoc]
+    rw [this]; exact slice_mid _ _ _ _ _ rfl leh.symm
+  have F3 : Rom.slice (pre ++ eh ++ hm ++ rest) (pre.length + 16) 32 = hm :=
+    slice_mid _ _ _ _ _ (by simp [leh]) lhm.symm
+  unfold Rom.readSection
+  rw [if_neg (by omega)]
+  simp only [F2, F3]
+  rw [if_pos hne]
+
+/-- ROM side: a section whose header decrypts to `hdr` but whose MAC table does not fit the ciphertext is refused -/
+theorem readSection_table_bad (h : CryptoLaws c) (dek mac nonce pre eh tbl ec post : Bytes) (hdr : CmdHdr)
+    (hr : hdr.inRange = true) (htag : hdr.tag = 1) (leh : eh.length = 16)
+    (hx : xorBytes eh (ksBlock c dek nonce (nonceCtr nonce + pre.length / 16)) = encodeHdr hdr)
+    (h1 : 1 ≤ hdr.data) (h2 : hdr.data ≤ hdr.count)
+    (ltbl : tbl.length = 32 * hdr.data) (lec : ec.length = 16 * hdr.count)
+    (hck : Rom.checkMacs c mac hdr.data (hdr.count / hdr.data * 16) tbl ec = false) :
+    Rom.readSection c dek mac nonce (pre ++ eh ++ hmac c .sha256 mac eh ++ tbl ++ ec ++ post) pre.length
+      = .error .badSectionMac := by
+  have lhm : (hmac c .sha256 mac eh).length = 32 := hmac256_length h mac eh
+  generalize hfile : pre ++ eh ++ hmac c .sha256 mac eh ++ tbl ++ ec ++ post = file
+  have F1 : file.length = pre.length + 48 + 32 * hdr.data + 16 * hdr.count + post.length := by
+    subst hfile; simp only [List.length_append, leh, lhm, ltbl, lec]
+  have F2 : Rom.slice file pre.length 16 = eh := by
+    have : file = pre ++ eh ++ (hmac c .sha256 mac eh ++ tbl ++ ec ++ post) := by subst hfile; simp [List.append_assoc]
+    rw [this]; exact slice_mid _ _ _ _ _ rfl leh.symm
+  have F3 : Rom.slice file (pre.length + 16) 32 = hmac c .sha256 mac eh := by
+    have : file = (pre ++ eh) ++ hmac c .sha256 mac eh ++ (tbl ++ ec ++ post) := by subst hfile; simp [List.append_assoc]
+    rw [this]; exact slice_mid _ _ _ _ _ (by simp [leh]) lhm.symm
+  have F6 : Rom.slice file (pre.length + 48) (32 * hdr.data) = tbl := by
+    have : file = (pre ++ eh ++ hmac c .sha256 mac eh) ++ tbl ++ (ec ++ post) := by subst hfile; simp [List.append_assoc]
+    rw [this]; exact slice_mid _ _ _ _ _ (by simp [leh, lhm]) ltbl.symm
+  have F7 : Rom.slice file (pre.length + 48 + 32 * hdr.data) (16 * hdr.count) = ec := by
+    have : file = (pre ++ eh ++ hmac c .sha256 mac eh ++ tbl) ++ ec ++ post := by subst hfile; simp [List.append_assoc]
+    rw [this]; exact slice_mid _ _ _ _ _ (by simp [leh, lhm, ltbl]; omega) lec.symm
+  have F4 : xorBytes eh (Rom.ksAt c dek nonce pre.length) = encodeHdr hdr := by rw [ksAt_eq_ksBlock, hx]
+  have F5 : Rom.readHdr (encodeHdr hdr) = .ok ⟨hdr.tag, hdr.flags, hdr.address, hdr.count, hdr.data⟩ := by
+    have := readHdr_encodeHdr hdr hr []
+    rwa [List.append_nil] at this
+  unfold Rom.readSection
+  rw [if_neg (by omega)]
+  simp only [F2, F3, F4, F5, F6, F7, hck, htag]
+  simp only [Spec.tagTag, ne_eq, not_true_eq_false, if_false, Bool.not_false, if_true]
+  rw [if_neg (by omega), if_neg (by omega)]
+
+/-- a MAC table computed over `ec` that also passes for a different `ec'` of the same length exhibits an HMAC forgery -/
+theorem checkMacs_forgery (h : CryptoLaws c) (mac : Bytes) (hc bs : Nat) (ec ec' : Bytes) (hpos : 1 ≤ hc)
+    (hl : ec'.length = ec.length) (hne : ec' ≠ ec)
+    (hck : Rom.checkMacs c mac hc bs (hmacEntries c mac hc bs ec) ec' = true) : Break c := by
+  induction hc generalizing ec ec' with
+  | zero => omega
+  | succ n ih =>
+    cases n with
+    | zero =>
+      have l := hmac256_length h mac ec
+      simp only [checkMacs, hmacEntries] at hck
+      rw [List.take_of_length_le (by omega)] at hck
+      have e : hmac c .sha256 mac ec = hmac c .sha256 mac ec' := by simpa [hmac256] using hck
+      exact Break.hmacForgery .sha256 mac ec ec' (fun e' => hne e'.symm) e
+    | succ m =>
+      have l := hmac256_length h mac (ec.take bs)
+      simp only [checkMacs, hmacEntries] at hck
+      rw [List.take_left' l, List.drop_left' l, Bool.and_eq_true] at hck
+      obtain ⟨hck1, hck2⟩ := hck
+      have e : hmac c .sha256 mac (ec.take bs) = hmac c .sha256 mac (ec'.take bs) := by simpa [hmac256] using hck1
+      by_cases ht : ec.take bs = ec'.take bs
+      · refine ih (ec.drop bs) (ec'.drop bs) (by omega) (by simp [hl]) ?_ hck2
+        intro hd
+        apply hne
+        rw [← List.take_append_drop bs ec', ← List.take_append_drop bs ec, ht, hd]
+      · exact Break.hmacForgery .sha256 mac _ _ ht e
+
+/-- a table of the right length that the ROM accepts for `ec` is the builder's table for `ec` -/
+theorem checkMacs_eq_entries (mac : Bytes) (hc bs : Nat) (tbl ec : Bytes) (ltbl : tbl.length = 32 * hc)
+    (hck : Rom.checkMacs c mac hc bs tbl ec = true) : tbl = hmacEntries c mac hc bs ec := by
+  induction hc generalizing tbl ec with
+  | zero => simp [hmacEntries]; exact List.eq_nil_of_length_eq_zero (by omega)
+  | succ n ih =>
+    cases n with
+    | zero =>
+      simp only [checkMacs] at hck
+      rw [List.take_of_length_le (by omega)] at hck
+      simpa [hmacEntries, hmac256] using hck
+    | succ m =>
+      simp only [checkMacs, Bool.and_eq_true] at hck
+      obtain ⟨hck1, hck2⟩ := hck
+      have e1 : tbl.take 32 = hmac256 c mac (ec.take bs) := by simpa [hmac256] using hck1
+      have e2 := ih (tbl.drop 32) (ec.drop bs) (by simp [ltbl]; omega) hck2
+      rw [← List.take_append_drop 32 tbl, e1, e2]
+      simp [hmacEntries]
+
+theorem sectionHdr_inRange (s : Section) (wf : Spec.WFsection s) :
+    (⟨Sb2Consts.tagTag, imageSectionFlags, s.uid, Spec.cmdsLen s.cmds / 16, Spec.macCount s⟩ : CmdHdr).inRange = true := by
+  have ⟨_, _, e3⟩ := effHmacCount_eq s wf
+  obtain ⟨wuid, _, _, wlen⟩ := wf
+  simp [CmdHdr.inRange, Sb2Consts.tagTag, imageSectionFlags, Sb2Consts.sectFlagBootable, Sb2Consts.sectFlagLastSect]
+  omega
+
+-- INTERFACE: ciphertext body replaced
+theorem readSection_body_tampered (h : CryptoLaws c) (dek mac nonce pre post : Bytes) (s : Section)
+    (wf : Spec.WFsection s) (hpre : pre.length % 16 = 0) (body' : Bytes)
+    (hlen : body'.length = Spec.cmdsLen s.cmds)
+    (hne : body' ≠ (buildSection c dek mac nonce (nonceCtr nonce + pre.length / 16) s).drop (48 + 32 * Spec.macCount s)) :
+    Rom.readSection c dek mac nonce
+        (pre ++ (buildSection c dek mac nonce (nonceCtr nonce + pre.length / 16) s).take (48 + 32 * Spec.macCount s) ++ body' ++ post)
+        pre.length = .error .badSectionMac ∨ Break c := by
+  have ⟨_, e2, e3⟩ := effHmacCount_eq s wf
+  have hr := sectionHdr_inRange s wf
+  have ⟨l3, l4⟩ := cmdsLen_facts s.cmds wf.2.1
+  obtain ⟨eh, ec, hS, leh, lec, hx⟩ := buildSection_parts h dek mac nonce (nonceCtr nonce + pre.length / 16) s wf
+  have lhm : (hmac c .sha256 mac eh).length = 32 := hmac256_length h mac eh
+  generalize htbl : hmacEntries c mac (Spec.macCount s) (Spec.cmdsLen s.cmds / 16 / Spec.macCount s * 16) ec = tbl at hS
+  have ltbl : tbl.length = 32 * Spec.macCount s := by subst htbl; exact hmacEntries_length h _ _ _ _
+  have l48 : (eh ++ hmac c .sha256 mac eh ++ tbl).length = 48 + 32 * Spec.macCount s := by
+    simp only [List.length_append, leh, lhm, ltbl]
+  rw [hS, List.drop_left' l48] at hne
+  rw [hS, List.take_left' l48]
+  by_cases hck : Rom.checkMacs c mac (Spec.macCount s) (Spec.cmdsLen s.cmds / 16 / Spec.macCount s * 16) tbl body' = true
+  · right
+    rw [← htbl] at hck
+    exact checkMacs_forgery h mac _ _ ec body' e2 (by omega) hne hck
+  · left
+    have := readSection_table_bad h dek mac nonce pre eh tbl body' post _ hr rfl leh hx e2 e3 ltbl (by simp only []; omega)
+      (by simpa using hck)
+    simpa [List.append_assoc] using this
+
+-- INTERFACE: encrypted header replaced
+theorem readSection_header_tampered (h : CryptoLaws c) (dek mac nonce pre post : Bytes) (s : Section)
+    (wf : Spec.WFsection s) (hpre : pre.length % 16 = 0) (eh' : Bytes) (hlen : eh'.length = 16)
+    (hne : eh' ≠ (buildSection c dek mac nonce (nonceCtr nonce + pre.length / 16) s).take 16) :
+    Rom.readSection c dek mac nonce
+        (pre ++ eh' ++ (buildSection c dek mac nonce (nonceCtr nonce + pre.length / 16) s).drop 16 ++ post)
+        pre.length = .error .badSectionMac ∨ Break c := by
+  obtain ⟨eh, ec, hS, leh, lec, hx⟩ := buildSection_parts h dek mac nonce (nonceCtr nonce + pre.length / 16) s wf
+  have lhm : (hmac c .sha256 mac eh).length = 32 := hmac256_length h mac eh
+  generalize hmacEntries c mac (Spec.macCount s) (Spec.cmdsLen s.cmds / 16 / Spec.macCount s * 16) ec = tbl at hS
+  have hS' : buildSection c dek mac nonce (nonceCtr nonce + pre.length / 16) s
+      = eh ++ (hmac c .sha256 mac eh ++ tbl ++ ec) := by rw [hS]; simp [List.append_assoc]
+  rw [hS', List.take_left' leh] at hne
+  rw [hS', List.drop_left' leh]
+  by_cases he : hmac c .sha256 mac eh = hmac c .sha256 mac eh'
+  · right
+    exact Break.hmacForgery .sha256 mac eh eh' (fun e => hne e.symm) he
+  · left
+    have := readSection_hdrMac_bad (c := c) dek mac nonce pre eh' (hmac c .sha256 mac eh) (tbl ++ ec ++ post) hlen lhm he
+    simpa [List.append_assoc] using this
+
+-- INTERFACE: header MAC / MAC table replaced (no crypto assumption: the ROM recomputes and compares)
+theorem readSection_macs_tampered (h : CryptoLaws c) (dek mac nonce pre post : Bytes) (s : Section)
+    (wf : Spec.WFsection s) (hpre : pre.length % 16 = 0) (macs' : Bytes)
+    (hlen : macs'.length = 32 + 32 * Spec.macCount s)
+    (hne : macs' ≠ ((buildSection c dek mac nonce (nonceCtr nonce + pre.length / 16) s).drop 16).take (32 + 32 * Spec.macCount s)) :
+    Rom.readSection c dek mac nonce
+        (pre ++ (buildSection c dek mac nonce (nonceCtr nonce + pre.length / 16) s).take 16 ++ macs' ++
+          (buildSection c dek mac nonce (nonceCtr nonce + pre.length / 16) s).drop (48 + 32 * Spec.macCount s) ++ post)
+        pre.length = .error .badSectionMac := by
+  have ⟨_, e2, e3⟩ := effHmacCount_eq s wf
+  have hr := sectionHdr_inRange s wf
+  have ⟨l3, l4⟩ := cmdsLen_facts s.cmds wf.2.1
+  obtain ⟨eh, ec, hS, leh, lec, hx⟩ := buildSection_parts h dek mac nonce (nonceCtr nonce + pre.length / 16) s wf
+  have lhm : (hmac c .sha256 mac eh).length = 32 := hmac256_length h mac eh
+  generalize htbl : hmacEntries c mac (Spec.macCount s) (Spec.cmdsLen s.cmds / 16 / Spec.macCount s * 16) ec = tbl at hS
+  have ltbl : tbl.length = 32 * Spec.macCount s := by subst htbl; exact hmacEntries_length h _ _ _ _
+  have l48 : (eh ++ hmac c .sha256 mac eh ++ tbl).length = 48 + 32 * Spec.macCount s := by
+    simp only [List.length_append, leh, lhm, ltbl]
+  have l32 : (hmac c .sha256 mac eh ++ tbl).length = 32 + 32 * Spec.macCount s := by
+    simp only [List.length_append, lhm, ltbl]
+  have hS' : buildSection c dek mac nonce (nonceCtr nonce + pre.length / 16) s
+      = eh ++ (hmac c .sha256 mac eh ++ tbl ++ ec) := by rw [hS]; simp [List.append_assoc]
+  have hS'' : buildSection c dek mac nonce (nonceCtr nonce + pre.length / 16) s
+      = eh ++ ((hmac c .sha256 mac eh ++ tbl) ++ ec) := by rw [hS]; simp [List.append_assoc]
+  rw [hS'', List.drop_left' leh, List.take_left' l32] at hne
+  have hT : (buildSection c dek mac nonce (nonceCtr nonce + pre.length / 16) s).take 16 = eh := by
+    rw [hS', List.take_left' leh]
+  have hD : (buildSection c dek mac nonce (nonceCtr nonce + pre.length / 16) s).drop (48 + 32 * Spec.macCount s) = ec := by
+    rw [hS, List.drop_left' l48]
+  rw [hT, hD]
+  obtain ⟨m1, m2, rfl, lt, ld⟩ : ∃ m1 m2 : Bytes, macs' = m1 ++ m2 ∧ m1.length = 32 ∧ m2.length = 32 * Spec.macCount s :=
+    ⟨macs'.take 32, macs'.drop 32, (List.take_append_drop 32 macs').symm, by simp; omega, by simp; omega⟩
+  by_cases he : m1 = hmac c .sha256 mac eh
+  · have hd : m2 ≠ tbl := by
+      intro e; apply hne; rw [he, e]
+    have hck : Rom.checkMacs c mac (Spec.macCount s) (Spec.cmdsLen s.cmds / 16 / Spec.macCount s * 16) m2 ec = false := by
+      cases hb : Rom.checkMacs c mac (Spec.macCount s) (Spec.cmdsLen s.cmds / 16 / Spec.macCount s * 16) m2 ec with
+      | false => rfl
+      | true => exact absurd ((checkMacs_eq_entries mac _ _ _ ec ld hb).trans htbl) hd
+    have := readSection_table_bad h dek mac nonce pre eh m2 ec post _ hr rfl leh hx e2 e3 ld (by simp only []; omega) hck
+    rw [he]
+    simpa [List.append_assoc] using this
+  · have := readSection_hdrMac_bad (c := c) dek mac nonce pre eh m1 (m2 ++ ec ++ post) leh lt he
+    simpa [List.append_assoc] using this
 
 end SpsdkVerif.Sb2
